@@ -257,7 +257,7 @@ Proof. unfold bytes_ok, zeros. apply Forall_forall. intros x Hx. apply repeat_sp
 (** * field tables *)
 
 Lemma len_enc_fld be f : len (enc_fld be f) = fld_len f.
-Proof. destruct f; cbn [enc_fld fld_len]; [apply len_put32 | apply len_put64 | apply len_fit]. Qed.
+Proof. destruct f; cbn [enc_fld fld_len]; [apply len_put16 | apply len_put32 | apply len_put64 | apply len_fit]. Qed.
 
 Fixpoint flds_len (fs : list fld) : N :=
   match fs with [] => 0 | f :: t => fld_len f + flds_len t end.
@@ -288,6 +288,14 @@ Lemma get32_fld be fs rest off v :
 Proof.
   intros H Hv. pose proof (read_fld be fs rest off (F32 v) H) as E.
   cbn [fld_len enc_fld] in E. rewrite E. unfold put32. now apply get_put.
+Qed.
+
+Lemma get16_fld be fs rest off v :
+  fld_at fs off = Some (F16 v) -> v < 2^16 ->
+  get be (read_of (enc_flds be fs ++ rest) off 2) = v.
+Proof.
+  intros H Hv. pose proof (read_fld be fs rest off (F16 v) H) as E.
+  cbn [fld_len enc_fld] in E. rewrite E. unfold put16. now apply get_put.
 Qed.
 
 Lemma get64_fld be fs rest off v :
